@@ -261,6 +261,37 @@ def build_config(c):
                                "control_events": [{"event": "ev_t_add", "action": "add", "value": 10},
                                                   {"event": "ev_t_stop", "action": "stop"},
                                                   {"event": "ev_t_start", "action": "start"}]}}
+        # a second game mode that only runs when a player starts it: while it is not running for the next player its
+        # devices must not touch anybody's variables (timed pause spanning the ball end, machine-wide control events)
+        machine["modes"] = ["m1", "m2"]
+        m2 = {
+            "mode": {"start_events": "ev_m2_start", "stop_events": "ev_m2_stop", "priority": 200,
+                     "restart_on_next_ball": x["m2_restart"]},
+            "timers": {"t2": {"start_value": 0, "end_value": 100000, "direction": "up", "start_running": x["t2_running"],
+                              "tick_interval": "750ms",
+                              "control_events": [{"event": "ev_t2_pause", "action": "pause", "value": x["t2_pause"]},
+                                                 {"event": "ev_t2_add", "action": "add", "value": 10},
+                                                 {"event": "ev_t2_start", "action": "start"},
+                                                 {"event": "ev_t2_stop", "action": "stop"}]}},
+            "shot_profiles": {"prof_sh3": {"states": [{"name": "a"}, {"name": "b"}, {"name": "c"}], "loop": True}},
+            "shots": {"sh3": {"hit_events": "ev_sh3", "advance_events": "ev_sh3_adv", "profile": "prof_sh3",
+                              "persist_enable": False, "enable_events": "ev_sh3_en", "disable_events": "ev_sh3_dis",
+                              "start_enabled": True,
+                              "control_events": [{"events": "ev_sh3_jump", "state": 2, "force": True},
+                                                 {"events": "ev_sh3_jump0", "state": 0, "force": True}]},
+                      "sh4": {"hit_events": "ev_sh4", "profile": "prof_sh3", "start_enabled": True,
+                              "disable_events": "ev_sh4_dis", "enable_events": "ev_sh4_en",
+                              "control_events": [{"events": "ev_sh4_jump", "state": 1, "force": True}]}},
+            "accruals": {"a2": {"events": ["ev_a2_0", "ev_a2_1", "ev_a2_2"], "persist_state": True,
+                                "reset_on_complete": False, "disable_on_complete": False}},
+            "counters": {"c3": {"count_events": "ev_c3", "persist_state": False},
+                         "c4": {"count_events": "ev_c4", "persist_state": True,
+                                "control_events": [{"event": "ev_c4_add", "action": "add", "value": 5},
+                                                   {"event": "ev_c4_sub", "action": "subtract", "value": 2},
+                                                   {"event": "ev_c4_jump", "action": "jump", "value": 9}]}},
+            "variable_player": {"ev_m2_score": {"score": 3}},
+        }
+        return machine, {"m1": m1, "m2": m2}
     return machine, {"m1": m1}
 
 
@@ -268,18 +299,56 @@ ACH_EVENTS = ["ev_%s_%s" % (n, s) for n in ("ach1", "ach2")
               for s in ("en", "start", "done", "stop", "dis", "reset", "sel", "unsel")] + ["ev_t_add", "ev_t_stop", "ev_t_start"]
 
 
+COUNTER_CONTROL = ("ev_c4_add", "ev_c4_sub", "ev_c4_jump")
+M2_EVENTS = ["ev_t2_pause", "ev_t2_add", "ev_t2_start", "ev_t2_stop", "ev_sh3", "ev_sh3", "ev_sh3_adv", "ev_sh3_jump",
+             "ev_sh3_jump0", "ev_sh3_en", "ev_sh3_dis", "ev_sh4", "ev_sh4_jump", "ev_sh4_dis", "ev_sh4_en", "ev_a2_0",
+             "ev_a2_1", "ev_a2_2", "ev_c3", "ev_c4", "ev_c4", "ev_m2_score", "ev_nothing"]
+M2_VARS = ["m2_t2_tick", "shot_sh3", "shot_sh3_enabled", "shot_sh4", "shot_sh4_enabled", "a2_state", "c3_state", "c4_state"]
+
+
 def gen_ext(rng, tier, i):
     case = gen(rng, tier, i)
     case["cfg"]["ext"] = {
+        "m2_restart": rng.random() < 0.3, "t2_running": rng.random() < 0.7, "t2_pause": rng.choice([2, 3, 4]),
         "ach1": {"restart_started": False, "keep_enabled": True, "restart_after_stop": True, "start_enabled": None},
         "ach2": {"restart_started": rng.random() < 0.6, "keep_enabled": rng.random() < 0.5,
                  "restart_after_stop": rng.random() < 0.5, "start_enabled": rng.choice([True, False, None])},
         "t_start": rng.choice([0, 5])}
     ops = []
+    m2 = False          # rough tracker: is mode m2 running (it stops at every ball end and with ev_m2_stop)
     for op in case["ops"]:
+        if op[0] in ("drain", "end_game") and m2 and rng.random() < 0.5:
+            # hand-over scenarios: a timed pause / device progress right before the ball ends, then the next player
+            # plays without mode m2 while the pause expires and machine-wide control events arrive
+            ops.append(["post", rng.choice(["ev_t2_pause", "ev_t2_pause", "ev_sh3", "ev_a2_0", "ev_c4"])])
+            ops.append(op)
+            m2 = False
+            for _ in range(rng.choice([3, 5, 6])):
+                ops.append(["post", rng.choice(["ev_nothing", "ev_sh3_jump", "ev_sh3_adv", "ev_sh3", "ev_a2_1", "ev_a2_2",
+                                                "ev_c3", "ev_c4", "ev_sh4_jump", "ev_t2_add", "ev_score", "ev_c1"])])
+            continue
         ops.append(op)
-        if op[0] == "post" and rng.random() < 0.6:
-            ops.append(["post", rng.choice(ACH_EVENTS)])
+        if op[0] in ("drain", "end_game", "start"):
+            m2 = False if op[0] != "start" else m2
+        if op[0] == "post":
+            r = rng.random()
+            if r < 0.3:
+                ops.append(["post", rng.choice(ACH_EVENTS)])
+            elif r < 0.42 and not m2:
+                ops.append(["post", "ev_m2_start"])
+                m2 = True
+            elif r < 0.75 and m2:
+                if rng.random() < 0.12:
+                    # "ifm2": the harness delivers it only while mode m2 is really running (otherwise: recorded defect)
+                    ops.append(["post", rng.choice(COUNTER_CONTROL), "ifm2"])
+                else:
+                    ops.append(["post", rng.choice(M2_EVENTS)])
+            elif r < 0.78 and m2:
+                ops.append(["post", "ev_m2_stop"])
+                m2 = False
+    if rng.random() < 0.08:
+        # recorded defect: a counter control event while the counter's mode is not running stops the machine
+        ops.insert(rng.randrange(1, len(ops) + 1), ["post", rng.choice(COUNTER_CONTROL)])
     case["ops"] = ops
     return case
 
@@ -335,7 +404,7 @@ def tagv(v):
         except (TypeError, ValueError):
             return ["o"]
     if isinstance(v, list):
-        return ["o"]
+        return ["o", [str(getattr(x, "name", x)) for x in v]]
     return ["?", repr(v)[:60]]
 
 
@@ -353,7 +422,7 @@ def run_impl(case):
             evs.append([var, tagv(kwargs.get("value")), tagv(kwargs.get("prev_value")), tagv(kwargs.get("change")),
                         tagv(kwargs.get("player_num"))])
         registered = set()
-        for v in list(VARS) + ["m1_t1_tick", "achievements"]:
+        for v in list(VARS) + ["m1_t1_tick", "achievements"] + M2_VARS:
             m.events.add_handler("player_" + v, rec, priority=10 ** 7, var=v)
             registered.add(v)
 
@@ -389,36 +458,54 @@ def run_impl(case):
                 reads.append(tagv(d.state))
                 reads.append(tagv(d.enabled))
             xreads = None
+            m2reads = None
+            mode2 = False
             if case["cfg"].get("ext"):
                 xreads = [[m.achievements[n].state, bool(m.achievements[n].selected)] for n in ("ach1", "ach2")]
+                mode2 = bool(m.modes["m2"].active)
+                m2reads = {}
+                for n in ("c3", "c4"):
+                    d = m.counters[n]
+                    m2reads[n] = None if d.value is None else ["lb", bool(d.enabled), bool(d.completed), ["i", d.value]]
+                d = m.accruals["a2"]
+                m2reads["a2"] = None if d.value is None else ["lb", bool(d.enabled), bool(d.completed), ["l", list(d.value)]]
+                for n in ("sh3", "sh4"):
+                    d = m.shots[n]
+                    m2reads[n] = [tagv(d.state), bool(d.enabled), d.state_name]
             return {"ingame": bool(g), "cur": cur, "players": players, "reads": reads, "xreads": xreads,
-                    "mode": bool(m.modes["m1"].active)}
+                    "mode": bool(m.modes["m1"].active), "mode2": mode2, "m2reads": m2reads}
 
         steps = []
         err = None
         for op in case["ops"]:
             del evs[:]
-            if op[0] == "start":
-                r.hit_and_release_switch("s_start")
-                r.advance(1)
-            elif op[0] == "post":
-                m.events.post(op[1])
-                r.advance(1)
-            elif op[0] == "drain":
-                if m.game and m.game.balls_in_play > 0:
-                    m.events.post_relay("ball_drain", balls=1)
-                    m.playfield.balls = 0
-                    m.playfield.available_balls = 0
+            try:
+                if op[0] == "start":
+                    r.hit_and_release_switch("s_start")
                     r.advance(1)
-            elif op[0] == "end_game":
-                m.events.post("end_game")
-                if m.game:
-                    m.playfield.balls = 0
-                    m.playfield.available_balls = 0
-                r.advance(1)
+                elif op[0] == "post":
+                    if len(op) < 3 or m.modes["m2"].active:
+                        m.events.post(op[1])
+                    r.advance(1)
+                elif op[0] == "drain":
+                    if m.game and m.game.balls_in_play > 0:
+                        m.events.post_relay("ball_drain", balls=1)
+                        m.playfield.balls = 0
+                        m.playfield.available_balls = 0
+                        r.advance(1)
+                elif op[0] == "end_game":
+                    m.events.post("end_game")
+                    if m.game:
+                        m.playfield.balls = 0
+                        m.playfield.available_balls = 0
+                    r.advance(1)
+            except Exception as e:     # advance_time_and_run re-raises what a handler raised
+                err = "%s: %s" % (type(e).__name__, str(e)[:700])
+                r._exception = None
+                break
             ex = r.exception()
             if ex:
-                err = "%s: %s" % (type(ex.get("exception")).__name__, str(ex.get("exception"))[:200]) \
+                err = "%s: %s" % (type(ex.get("exception")).__name__, str(ex.get("exception"))[:700]) \
                     if isinstance(ex, dict) else repr(ex)[:200]
                 break
             d = dump()
@@ -605,11 +692,11 @@ def initial_reads(c):
 
 def fresh_store(c, i):
     return {"index": ["i", i], "number": ["i", i + 1], "pv_int": ["i", c["pv_int"]], "pv_str": ["s", c["pv_str"]],
-            "score": ["i", 0], "restart_modes_on_next_ball": ["o"]}
+            "score": ["i", 0], "restart_modes_on_next_ball": ["o", []]}
 
 
 DEVICE_VARS = ("c1_state", "c2_state", "a1_state", "shot_sh1", "shot_sh1_enabled", "shot_sh2", "shot_sh2_enabled",
-               "achievements", "m1_t1_tick")
+               "achievements", "m1_t1_tick")      # (mode m2 never runs at the moment a new game is observed)
 
 
 def reads_from_store(store):
@@ -691,28 +778,50 @@ def check_events(prev_players, st, fails, opdesc):
 def oracle(case, out):
     fails = []
     if out.get("error"):
-        fails.append({"sig": "exception", "what": "the machine raised: %s" % out["error"]})
+        k = len(out["steps"])
+        op = case["ops"][k] if k < len(case["ops"]) else ["?"]
+        m2_on = bool(out["steps"][k - 1].get("mode2")) if k else False
+        err = out["error"]
+        # recorded defect: a counter control event while the counter's mode is not running finds no state object
+        if op[0] == "post" and op[1] in COUNTER_CONTROL and not m2_on and "Counter.event_" in err and "counter.c4" in err \
+                and ("'NoneType'" in err):
+            fails.append({"sig": "counter-control-event-without-state",
+                          "what": "%s posted while mode m2 is not running: %s" % (op[1], err[:200])})
+        else:
+            fails.append({"sig": "exception", "what": "op %d %s: the machine raised: %s" % (k, "/".join(op), err)})
     c = case["cfg"]
     prev = {"ingame": False, "cur": 0, "players": [], "reads": None, "mode": False}
     last_reads = {}         # player index -> device reads when that player's last ball ended
+    frozen = {}             # player index -> variables at that player's last turn end (players not at turn)
     for k, st in enumerate(out["steps"]):
         op = case["ops"][k]
         opdesc = "op %d %s" % (k, "/".join(op))
         pp, ap = prev["players"], st["players"]
         new_game = st["ingame"] and not prev["ingame"]
+        if not st["ingame"] or new_game:
+            frozen = {}
         if st["ingame"] and prev["ingame"]:
             if len(ap) < len(pp):
                 fails.append({"sig": "player-lost", "what": "%s: player list shrank" % opdesc})
-            # ---- frame: players whose turn it is not are untouched ---------------------------------------
-            touched_ok = {prev["cur"]} if op[0] == "post" else {prev["cur"], st["cur"]} if op[0] in ("drain", "end_game") else set()
-            if c.get("ext"):
-                touched_ok.add(prev["cur"])      # a running timer ticks for the current player while time passes
-            for j in range(min(len(pp), len(ap))):
-                if j not in touched_ok and pp[j] != ap[j]:
+            # ---- frame (general form): after EVERY operation every variable of every player who is not the
+            # current player equals its value at that player's last turn end (or at creation), whatever wrote it
+            for j in range(len(ap)):
+                if j == st["cur"]:
+                    frozen.pop(j, None)
+                    continue
+                if j == prev["cur"] or j not in frozen:
+                    frozen[j] = ap[j]            # the turn ended in this operation / the player was just added
+                    continue
+                if ap[j] != frozen[j]:
                     fails.append({"sig": "leak-other-player",
-                                  "what": "%s during player %d's turn changed player %d: %r -> %r" %
-                                          (opdesc, prev["cur"] + 1, j + 1,
-                                           [x for x in pp[j] if x not in ap[j]], [x for x in ap[j] if x not in pp[j]])})
+                                  "what": "%s during player %d's turn changed player %d (since that player's turn "
+                                          "ended): %r -> %r" %
+                                          (opdesc, st["cur"] + 1, j + 1,
+                                           [x for x in frozen[j] if x not in ap[j]], [x for x in ap[j] if x not in frozen[j]])})
+                    frozen[j] = ap[j]
+            if op[0] == "start" and not c.get("ext") and prev["cur"] < len(ap) and pp[prev["cur"]] != ap[prev["cur"]]:
+                fails.append({"sig": "leak-other-player", "what": "%s (add player) changed the current player's variables"
+                              % opdesc})
             if op[0] == "start":
                 if st["cur"] != prev["cur"]:
                     fails.append({"sig": "leak-other-player", "what": "%s changed the current player" % opdesc})
@@ -818,6 +927,26 @@ def oracle_ext(case, out):
                 fails.append({"sig": "achievement-bound-to-wrong-player",
                               "what": "%s: achievements read %r, current player %d holds %r" %
                                       (opdesc, st["xreads"], st["cur"] + 1, held)})
+        # ---- mode m2: bound to the current player while it runs, bound to nobody while it does not ---------------
+        r2 = st.get("m2reads")
+        if r2 is not None:
+            if st["ingame"] and st["mode2"] and st["players"] and st["cur"] < len(st["players"]):
+                d = dict(st["players"][st["cur"]])
+                want = {"c4": (d.get("c4_state") or [None])[:4] if d.get("c4_state") else None,
+                        "a2": d.get("a2_state")[:4] if d.get("a2_state") else None,
+                        "sh3": d.get("shot_sh3", ["i", 0]), "sh4": d.get("shot_sh4", ["i", 0])}
+                got = {"c4": r2["c4"], "a2": r2["a2"], "sh3": r2["sh3"][0], "sh4": r2["sh4"][0]}
+                if got != want:
+                    fails.append({"sig": "m2-device-bound-to-wrong-player",
+                                  "what": "%s: devices of mode m2 read %r, current player %d holds %r" %
+                                          (opdesc, got, st["cur"] + 1, want)})
+            if not st["mode2"]:
+                idle = {"c3": None, "c4": None, "a2": None, "sh3": [["i", 0], False, "None"], "sh4": [["i", 0], False, "None"]}
+                if r2 != idle:
+                    fails.append({"sig": "m2-device-reads-player-while-mode-off",
+                                  "what": "%s: mode m2 is not running but its devices read %r" % (opdesc, r2)})
+            if st["mode2"] and not st["ingame"]:
+                fails.append({"sig": "game-mode-outside-game", "what": "%s: mode m2 runs without a game" % opdesc})
         prev = st
     seen, res = set(), []
     for f in fails:
@@ -828,21 +957,41 @@ def oracle_ext(case, out):
 
 
 def nontrivial_ext(case, out):
+    """several achievement readings, and a hand-over after which the next player plays >= 3 operations without mode m2
+    although the previous player had it running when the ball ended"""
     changed = set()
+    span = False
+    run = 0
+    prev = None
     for st in out["steps"]:
         if st["xreads"]:
             changed.add(json.dumps(st["xreads"]))
-    return nontrivial(case, out) and len(changed) >= 3
+        if prev is not None and prev["ingame"] and st["ingame"] and prev["cur"] != st["cur"] and prev.get("mode2"):
+            run = 1
+        elif run and st["ingame"] and not st.get("mode2") and prev is not None and prev["cur"] == st["cur"]:
+            run += 1
+            if run >= 4:
+                span = True
+        else:
+            run = 0
+        prev = st
+    return len(changed) >= 3 and span
 
 
 # ------------------------------------------------------------------------------------------------
 def shrink(case):
+    """prefixes first (a failure stays when later operations go), then chunks of decreasing size, then single ops"""
     ops = case["ops"]
-    for i in range(len(ops) - 1, 0, -1):
+    n = len(ops)
+    for m in (n // 4, n // 2, 3 * n // 4, n - 8, n - 4, n - 2, n - 1):
+        if 0 < m < n:
+            yield {"cfg": case["cfg"], "ops": ops[:m]}
+    for size in (16, 8, 4, 2):
+        if n > size + 1:
+            for i in range(n - size, 0, -size):
+                yield {"cfg": case["cfg"], "ops": ops[:i] + ops[i + size:]}
+    for i in range(n - 1, 0, -1):
         yield {"cfg": case["cfg"], "ops": ops[:i] + ops[i + 1:]}
-    for n in (len(ops) // 2, len(ops) - 1):
-        if 0 < n < len(ops):
-            yield {"cfg": case["cfg"], "ops": ops[:n]}
 
 
 def nontrivial(case, out):
